@@ -79,7 +79,7 @@ theorem c05_table_layout : layoutOK members simStructSize = true := by decide +k
 theorem c05_table_coverage : coverageOK particleSize table members transient knownGaps = true := by
   decide +kernel
 
-/-- the same statement without the recorded gaps is FALSE on the unchanged tree (findings F9a, F18): kept
+/-- the same statement without the recorded gaps is FALSE on the unchanged tree (findings F9a, C05-N1): kept
     as the full-strength form; it becomes provable once the gaps are repaired. -/
 theorem c05_table_coverage_partial :
     uncovered particleSize table members transient [] ⊆ knownGaps := by decide +kernel
